@@ -68,6 +68,14 @@ pub enum Op {
     Cut,
     /// A dials B's address again
     Reconnect,
+    /// A dials an address of B that leads nowhere: the dial fails, and the failure is reported to every protocol whether
+    /// or not B is connected some other way
+    DialDead,
+    /// as `DialDead`, but nobody answers the SYN: the dial stays pending until `DeadDialTimesOut`
+    DialDeadSlow,
+    DeadDialTimesOut,
+    /// B dials A's address
+    ReconnectFromB,
     /// environment: outbound substream opens of `node`'s connections are held back (slow round trip for the new
     /// stream) / released
     HoldOpens { node: u8, hold: bool },
@@ -86,6 +94,10 @@ impl Op {
             Op::Answer { node, peer, accept } => format!("{}.answer({},{})", n(node), n(peer), if *accept { "accept" } else { "reject" }),
             Op::Cut => "cut(A-B)".into(),
             Op::Reconnect => "A.dial(B)".into(),
+            Op::DialDead => "A.dial(dead address of B)".into(),
+            Op::DialDeadSlow => "A.dial(dead address of B, unanswered)".into(),
+            Op::DeadDialTimesOut => "dead-dial-times-out".into(),
+            Op::ReconnectFromB => "B.dial(A)".into(),
             Op::HoldOpens { node, hold } => format!("{}({})", if *hold { "hold-opens" } else { "release-opens" }, n(node)),
         }
     }
@@ -755,6 +767,19 @@ impl Scenario for NotifScenario {
                 let _ = w.nodes[A as usize].cmd.send(NodeCmd::DialAddress(st.addr_b.clone()));
             }
             Op::HoldOpens { node, hold } => w.nodes[node as usize].script.set_hold_opens(hold),
+            Op::DeadDialTimesOut => w.release_dead_dials(),
+            Op::ReconnectFromB => {
+                let addr_a = w.nodes[A as usize].address.clone();
+                let _ = w.nodes[B as usize].cmd.send(NodeCmd::DialAddress(addr_a));
+            }
+            Op::DialDead | Op::DialDeadSlow => {
+                if matches!(self.program[st.pc], Op::DialDeadSlow) {
+                    w.faults.hold_dead_dials = true;
+                }
+                let dead: multiaddr::Multiaddr = "/ip4/10.99.99.99/tcp/9".parse().unwrap();
+                let dead = dead.with(multiaddr::Protocol::P2p(w.nodes[B as usize].peer.into()));
+                let _ = w.nodes[A as usize].cmd.send(NodeCmd::DialAddress(dead));
+            }
         }
         st.pc += 1;
     }
@@ -806,6 +831,10 @@ const AOC: Op = Op::Open { from: A, to: C };
 const AB4: Op = Op::OpenBatch { from: A, to: B };
 const CUT: Op = Op::Cut;
 const REC: Op = Op::Reconnect;
+const DEAD: Op = Op::DialDead;
+const DEAD_SLOW: Op = Op::DialDeadSlow;
+const DEAD_OUT: Op = Op::DeadDialTimesOut;
+const REC_B: Op = Op::ReconnectFromB;
 const HOLD_A: Op = Op::HoldOpens { node: A, hold: true };
 const FREE_A: Op = Op::HoldOpens { node: A, hold: false };
 const B_ACC: Op = Op::Answer { node: B, peer: A, accept: true };
@@ -856,6 +885,17 @@ pub fn scenarios(thorough: bool) -> Vec<(NotifScenario, usize)> {
         scn(&[AO, A_ACC], def, acc, false, false),
         // open when the peer is not connected (dial on demand)
         scn(&[CUT, AO], acc, acc, false, false),
+        // a dial of the connected peer's other (dead) address fails while the stream is being negotiated / awaits
+        // validation / is open: the failure concerns nobody's stream
+        scn(&[AO, DEAD, B_ACC, AS], acc, def, false, false),
+        scn(&[AO, DEAD, AS], acc, acc, false, false),
+        scn(&[BO, DEAD, A_ACC, AS], def, acc, false, false),
+        scn(&[HOLD_A, AO, DEAD, FREE_A, AS], acc, acc, false, false),
+        // A's dial of a dead address of B is still unanswered when B connects on its own; a stream is then opened and the
+        // stale dial times out while that stream awaits validation / is open
+        scn(&[CUT, DEAD_SLOW, REC_B, AO, DEAD_OUT, B_ACC, AS], acc, def, false, false),
+        scn(&[CUT, DEAD_SLOW, REC_B, AO, DEAD_OUT, AS], acc, acc, false, false),
+        scn(&[CUT, DEAD_SLOW, REC_B, BO, DEAD_OUT, A_ACC, AS], def, acc, false, false),
         // the bystander
         scn(&[AO, AOC], acc, acc, false, false),
         // open, close, reopen
